@@ -16,7 +16,7 @@ def held_handles(b):
 class C13(Prop):
     id = "C13"
     level = "exploration"
-    RUNS = {"quick": 500, "thorough": 10000}
+    RUNS = {"quick": 1000, "thorough": 10000}
     BUDGET = {"quick": 85, "thorough": 900}
     ORACLES = ("O-FRESH", "O-ATTR", "O-CERT", "O-ATTR-PRIMAL", "O-DELIVERY", "C13")
     RULE = ("one template model, then 2-5 rounds of [edit in {none, replace / rescale the initial condition, add a "
